@@ -42,6 +42,14 @@ func (c *Ctx) scanObligations(prop string) ([]*Obligation, map[string]interface{
 		out = append(out, obs...)
 		info["maporder "+d.File] = minfo
 	}
+	for _, d := range c.cf.GlobalStates {
+		if d.Prop != prop {
+			continue
+		}
+		obs, ginfo := c.scanGlobalState(d)
+		out = append(out, obs...)
+		info["globalstate"] = ginfo
+	}
 	eo, einfo := c.scanEffects(prop)
 	out = append(out, eo...)
 	for k, v := range einfo {
@@ -900,4 +908,45 @@ func onlyFormatsMessage(addr ssa.Value) bool {
 		}
 	}
 	return true
+}
+
+// scanGlobalState: process-wide mutable state.
+// Directive:  //@ globalstate C20 | name, name, ...
+// A package-level variable of the package under verification that is written after
+// package initialisation (a store to it or into it outside init, or its address handed
+// to a call or stored) is state shared by every interpreter of the process: what one
+// interpreter does can then change what a later, fresh interpreter computes. Every such
+// variable must be on the directive's list (each one is an accepted, documented
+// dependency); a new one is a failed obligation.
+func (c *Ctx) scanGlobalState(d GlobalStateDirective) ([]*Obligation, string) {
+	allowed := map[string]bool{}
+	for _, a := range d.Allowed {
+		allowed[a] = true
+	}
+	var names []string
+	seen := map[string]bool{}
+	pkg := c.prog.Package(c.tpkg)
+	for _, m := range pkg.Members {
+		g, ok := m.(*ssa.Global)
+		if !ok || c.immutableGlobals[g] || strings.HasPrefix(g.Name(), "init$") {
+			continue
+		}
+		names = append(names, g.Name())
+		seen[g.Name()] = true
+	}
+	sort.Strings(names)
+	var out []*Obligation
+	var listed []string
+	for _, n := range names {
+		if allowed[n] {
+			listed = append(listed, n)
+			continue
+		}
+		ob := &Obligation{Name: "global.state[" + n + "]", Kind: "global.state", Fn: "package", Props: []string{d.Prop}, Backend: "ssa-scan", Status: "failed"}
+		ob.Model = "package-level variable " + n + " is written (or its address escapes) after package initialisation and is not on the list of accepted process-wide state"
+		out = append(out, ob)
+	}
+	ob := &Obligation{Name: "global.state#closed", Kind: "global.state", Fn: "package", Props: []string{d.Prop}, Backend: "ssa-scan", Status: "ok"}
+	out = append(out, ob)
+	return out, fmt.Sprintf("%d package-level variables can change after initialisation, all on the accepted list: %v", len(listed), listed)
 }
